@@ -1170,17 +1170,26 @@ func readSectionPart(dec *imapwire.Decoder) (part []int, dot bool) {
 
 type fetchLiteralReader struct {
 	*imapwire.LiteralReader
-	ch chan<- struct{}
+	ch  chan<- struct{}
+	err error
 }
 
 func (lit *fetchLiteralReader) Read(b []byte) (int, error) {
+	// Once the decoder has been unblocked it owns the connection again: never
+	// read from it after that, even if the literal wasn't entirely consumed
+	if lit.err != nil {
+		return 0, lit.err
+	}
 	n, err := lit.LiteralReader.Read(b)
 	// Unblock the decoder on any error, not only on io.EOF: if the connection
 	// fails in the middle of the literal, the decoder must be able to report
 	// the error and close the item channel
-	if err != nil && lit.ch != nil {
-		close(lit.ch)
-		lit.ch = nil
+	if err != nil {
+		lit.err = err
+		if lit.ch != nil {
+			close(lit.ch)
+			lit.ch = nil
+		}
 	}
 	return n, err
 }
